@@ -59,6 +59,9 @@ func (f SolarChargerErrorFactoryType) New(v uint8) (SolarChargerError, error) {
 }
 
 func (f SolarChargerErrorFactoryType) NewEnum(v int) (Enum, error) {
+	if v < 0 || v > 255 {
+		return nil, ErrInvalidEnumIdx
+	}
 	return f.New(uint8(v))
 }
 
